@@ -1,5 +1,3 @@
-//go:build verif && c14wip
-
 package props
 
 // C14: quorum certificates need a quorum of distinct, valid validator signatures.
@@ -881,16 +879,13 @@ func TestC14(t *testing.T) {
 		{c14FindVoteBatch, c14Cert{Path: "collect", N: 5, Collector: 0, Batch: []int{2, 1}, Entries: []c14Entry{
 			{K: "valid", Addr: 1, Key: 1}, {K: "nonmember", Addr: c14OutsiderA, Key: c14OutsiderA}, {K: "valid", Addr: 2, Key: 2}}}},
 	}
+	fs := hx.LoadFindings()
+	regressFixed(t, c, fs, "C14")
 	for _, w := range witnesses {
 		c14Exclude[w.id] = false
 		err := evalC14(w.d)
-		c.Count("witness:"+w.id, false, "witness")
-		if err != nil {
-			t.Logf("HEAD-FAILURE: %s: %s", w.id, err)
-			c.Label("head-failure:" + w.id)
-			if !noExclude {
-				c14Exclude[w.id] = true
-			}
+		if witnessVerdict(t, c, fs, w.id, err, w.d) && !noExclude {
+			c14Exclude[w.id] = true
 		}
 	}
 
